@@ -152,7 +152,8 @@ RefNormParts(u, o) ==
       segs == SplitOn(p5, 47)
       path == JoinWith([i \in 1..Len(segs) |-> LowIf(o, QU(o.quoted, "path", segs[i]))], 47)
       \* fragment
-      f1 == IF o.frag = "true" THEN <<>> ELSE IF o.frag = "except-routing" /\ ~RoutingFragment(c0.frag) THEN <<>> ELSE c0.frag
+      \* routing is decided on the unquoted fragment: '#%2Froute' and '#%21/x' are '#/route' and '#!/x'
+      f1 == IF o.frag = "true" THEN <<>> ELSE IF o.frag = "except-routing" /\ ~RoutingFragment(Unq("frag", c0.frag)) THEN <<>> ELSE c0.frag
       frag == LowIf(o, QU(o.quoted, "frag", f1))
       port == IF c0.port # <<>> /\ AllDigits(c0.port) /\ DecVal(c0.port) \in {80, 443} THEN <<>> ELSE c0.port
       scheme == IF o.proto \/ ~hasProto THEN <<>> ELSE c0.scheme
